@@ -414,6 +414,17 @@ StepIntake(cfg, orc, argv, st) ==
 HelpCalled(cfg, st) == HelpOpt(cfg) # 0 /\ st.called[HelpOpt(cfg)]
 Missing(cfg, st, n) == {o \in TableOpts(cfg, n) : Opt(cfg, o).req /\ ~st.called[o]}
 
+(* Which missing required option is reported: the required check scans the *)
+(* names and aliases of the level in sorted order (cfg.nodes[n].sorted is   *)
+(* that order, supplied with the definition; string order is not           *)
+(* expressible over opaque atoms).  0 when nothing is missing.             *)
+FirstMissing(cfg, st, n) ==
+  LET srt == Node(cfg, n).sorted
+      hit == {k \in 1..Len(srt) : srt[k] \in Keys(cfg, n) /\ OptOfKey(cfg, n, srt[k]) \in Missing(cfg, st, n)}
+  IN IF hit = {} THEN 0
+     ELSE OptOfKey(cfg, n, srt[CHOOSE k \in hit : \A j \in hit : k <= j])
+SortedOK(cfg, n) == Rng(Node(cfg, n).sorted) = Keys(cfg, n) /\ Len(Node(cfg, n).sorted) = Cardinality(Keys(cfg, n))
+
 RECURSIVE WalkUnknown(_, _, _, _)
 \* walk root..final: first unknown at a Fail level is the error, Warn levels warn
 WalkUnknown(cfg, st, chain, acc) ==   \* acc: [warn, text]
@@ -427,7 +438,7 @@ WalkUnknown(cfg, st, chain, acc) ==   \* acc: [warn, text]
 
 StepPost(cfg, orc, argv, st) ==
   IF st.node = 1 /\ ~HelpCalled(cfg, st) /\ Missing(cfg, st, 1) # {} THEN
-     ErrState(st, "PostRequired", [NoErr EXCEPT !.kind = "required", !.names = Missing(cfg, st, 1)])
+     ErrState(st, "PostRequired", [NoErr EXCEPT !.kind = "required", !.names = {FirstMissing(cfg, st, 1)}])
   ELSE
   LET w == WalkUnknown(cfg, st, Chain(cfg, st.node), [warn |-> <<>>, text |-> <<>>]) IN
   IF w.err THEN
@@ -443,7 +454,7 @@ StepDispatch(cfg, orc, argv, st) ==
      [st EXCEPT !.phase = "done", !.act = "DispatchHelp", !.derr = "help", !.helpof = n]
   ELSE IF Missing(cfg, st, n) # {} THEN
      [st EXCEPT !.phase = "done", !.act = "DispatchRequired", !.derr = "required",
-                !.dnames = Missing(cfg, st, n)]
+                !.dnames = {FirstMissing(cfg, st, n)}]
   ELSE IF nd.ishelp THEN
      IF st.rest # <<>> THEN
         LET c == ChildNamed(cfg, nd.parent, st.rest[1]) IN
